@@ -1,6 +1,8 @@
 import Gsd.Driver.C01
+import Gsd.Driver.C04
 import Gsd.Driver.C06
 import Gsd.Driver.C07
+import Gsd.Driver.C08
 import Gsd.Driver.C09
 import Gsd.Driver.C10
 import Gsd.Driver.C13
@@ -9,8 +11,10 @@ import Gsd.Driver.C18
 def main (args : List String) : IO UInt32 := do
   match args with
   | "C01" :: rest => Gsd.Driver.C01.main rest
+  | "C04" :: rest => Gsd.Driver.C04.main rest
   | "C06" :: rest => Gsd.Driver.C06.main rest
   | "C07" :: rest => Gsd.Driver.C07.main rest
+  | "C08" :: rest => Gsd.Driver.C08.main rest
   | "C09" :: rest => Gsd.Driver.C09.main rest
   | "C10" :: rest => Gsd.Driver.C10.main rest
   | "C13" :: rest => Gsd.Driver.C13.main rest
